@@ -156,6 +156,22 @@ def run_case(case, rec):
                         if d > worst.get(key, (0, None))[0]:
                             worst[key] = (d, (pt, float(got2[i, jx]), float(want[i, jx])))
             rec.cmp(m * n, cell)
+    # results kept by the caller must not be overwritten by later calls of the same callable
+    if len(case["points"]) >= 2 and not nbad:
+        for route, fn in fns.items():
+            try:
+                kept = []
+                for pt in case["points"]:
+                    r_ = fn(B.point_array(V, pt))
+                    kept.append((r_, np.array(r_, dtype=float, copy=True)))
+                rec.cmp(len(kept), cell)
+                rec.events["retained-result-checks"] += len(kept)
+                for r_, snap in kept:
+                    if not np.array_equal(np.asarray(r_, dtype=float), snap, equal_nan=True):
+                        bad(route, "returned-array-overwritten-by-a-later-call", case["points"][0], got=np.asarray(r_, dtype=float).reshape(-1).tolist(), want=snap.reshape(-1).tolist())
+                        break
+            except Exception as ex:
+                bad(route, "call-raises:" + type(ex).__name__, case["points"][0], ex=ex)
     # the caller's point buffer reused: one ndarray updated in place between calls to the same callables
     if len(case["points"]) >= 2 and not nbad:
         buf = B.point_array(V, case["points"][0]).copy()
